@@ -246,6 +246,8 @@ func (x *Exec) bindSpecParams(spec *FuncSpec, args []Value, sig *types.Signature
 func (x *Exec) callSpec(s *State, fr *Frame, spec *FuncSpec, key string, args []Value, sig *types.Signature, in ssa.Instruction) ([]Value, bool) {
 	if spec.External {
 		x.assumed[shortFn(key)] = true
+	} else if spec.Trusted {
+		x.assumed[shortFn(key)+" (in-repo, trusted: body not verified)"] = true
 	}
 	if iterSpecKeys[key] {
 		return x.callIterator(s, fr, spec, key, args, sig, in)
@@ -316,11 +318,16 @@ func (x *Exec) callSpec(s *State, fr *Frame, spec *FuncSpec, key string, args []
 			locs = append(locs, l)
 		}
 	}
+	havocNames := map[string]bool{}
 	for _, l := range locs {
 		if l.Ref != nil {
 			x.frameCheckCond(s, fr, l, in.Pos(), in)
 		}
-		x.writeLoc(s, l, x.freshValue(s, l.Type(), "havoc"))
+		fv := x.freshValue(s, l.Type(), "havoc")
+		if fv.Term != nil && fv.Term.K == KVar {
+			havocNames[fv.Term.Name] = true
+		}
+		x.writeLoc(s, l, fv)
 	}
 	// results
 	var rs []Value
@@ -341,6 +348,16 @@ func (x *Exec) callSpec(s *State, fr *Frame, spec *FuncSpec, key string, args []
 		case isFresh:
 			ref := x.allocRef(s)
 			v = Value{T: t, Term: ref}
+			// the new object's contents are a havoc value that a defining ensures (`*r == T{...}`) may pin down
+			if pt, ok := types.Unalias(t).Underlying().(*types.Pointer); ok {
+				if _, isStruct := types.Unalias(pt.Elem()).Underlying().(*types.Struct); isStruct {
+					ov := x.freshValue(s, pt.Elem(), "newobj")
+					if ov.Term != nil && ov.Term.K == KVar {
+						havocNames[ov.Term.Name] = true
+					}
+					x.heapWrite(s, ref, pt.Elem(), ov.Term)
+				}
+			}
 		case spec.Pure:
 			// result is an uninterpreted function of the argument terms
 			var sorts []string
@@ -372,8 +389,49 @@ func (x *Exec) callSpec(s *State, fr *Frame, spec *FuncSpec, key string, args []
 			}
 		}
 	}
+	// Ensures of the form `assigned-location == term` define the new value: substitute it for the havoc
+	// variable instead of carrying an equation (keeps builder-style call chains ground and small).
+	var post []*Term
 	for _, c := range spec.Ensures {
-		s.assume(x.evalBool(ctx, c.Expr))
+		post = append(post, conjuncts(x.evalBool(ctx, c.Expr))...)
+	}
+	for changed := true; changed && len(havocNames) > 0; {
+		changed = false
+		for i, t := range post {
+			if t == nil || !(t.K == KApp && t.Name == "=" && len(t.Args) == 2) {
+				continue
+			}
+			for _, ord := range [][2]int{{0, 1}, {1, 0}} {
+				v, e := t.Args[ord[0]], t.Args[ord[1]]
+				if v.K == KVar && havocNames[v.Name] && !contains(e, v.Name) {
+					m := map[string]*Term{v.Name: e}
+					x.substState(s, m)
+					for j := range post {
+						if post[j] != nil {
+							post[j] = Subst(post[j], m)
+						}
+					}
+					for k := range rs {
+						if rs[k].Term != nil {
+							rs[k].Term = Subst(rs[k].Term, m)
+						}
+					}
+					delete(havocNames, v.Name)
+					post[i] = nil
+					changed = true
+					break
+				}
+			}
+			if changed {
+				break
+			}
+		}
+	}
+	for _, t := range post {
+		if t != nil {
+			s.assume(t)
+			x.materialize(s, t)
+		}
 	}
 	return rs, true
 }
